@@ -222,6 +222,12 @@ def step (st : DState) (line : String) : DState × String :=
        let (c', ok) := addDynamicTypeItem st.cfg it
        ({ st with cfg := c' }, if ok then "1" else "0")
      | none => (st, "unsupported"))
+  | ["codelex", dec, thou, line] =>
+    -- the model lexer of the arithmetic / conversion-code alphabet on a whole line
+    let cs := (stringOfHex line).toList
+    (st, match (codeLex (stringOfHex dec) (stringOfHex thou) (cs.length + 1) cs : Option (List (Tok Float))) with
+      | some ts => "ok\t" ++ " ".intercalate (ts.map encTok)
+      | none => "none")
   | ["constdate", lang, word] =>
     -- the date a constant word (`today`, …) denotes in that language at the current `now`
     (st, match (constantOf st.cfg lang (stringOfHex word)).bind (constDate st.now) with
